@@ -21,7 +21,7 @@ THEOREMS = [
     'C17_sort_fuel_sufficient', 'C17_sort_error_propagates', 'C17_sort_keyf_error_propagates',
     'C17_uniq_spec', 'C17_uniq_no_adjacent_duplicates', 'C17_set_is_uniq_sort', 'C17_set_spec',
     'C17_union_spec', 'C17_inter_spec', 'C17_diff_spec', 'C17_member_spec',
-    'C17_minArray_first_min', 'C17_maxArray_first_max',
+    'C17_minArray_first_min', 'C17_maxArray_first_max', 'C17_set_functions_no_panic',
     'C17_nonvacuous_sort', 'C17_nonvacuous_uniq', 'C17_nonvacuous_sets', 'C17_nonvacuous_member_minmax',
 ]
 ALLOWED_AXIOMS = set()
@@ -133,12 +133,15 @@ def keyf_text(case):
     m = case['mode']
     if m == 'id':
         return None
+    # every application of keyF is recorded with std.trace ("c<tag>"): the order and number of calls is compared
+    # with the model's
     if m == 'proj':
-        return 'function(x) x[0]'
+        return 'function(x) if std.trace("c" + x[1], true) then x[0] else null'
     if m == 'trap':
-        return 'function(x) [x[0], error ("T" + x[1])]'
+        return 'function(x) if std.trace("c" + x[1], true) then [x[0], error ("T" + x[1])] else null'
     if m == 'kerr':
-        return 'function(x) if std.member(%s, x[1]) then error ("K" + x[1]) else x[0]' % json.dumps(sorted(case['errtags']))
+        return ('function(x) if std.trace("c" + x[1], true) then (if std.member(%s, x[1]) then error ("K" + x[1]) else x[0]) else null'
+                % json.dumps(sorted(case['errtags'])))
     raise ValueError(m)
 
 
@@ -235,6 +238,26 @@ def canon_impl(case, r):
             return ('EMPTY', None)
         return ('ERR', 'X.' + v)
     return ('BAD', r[:120])
+
+
+def impl_calls(r):
+    """the elements keyF was applied to, in order (from the std.trace messages)"""
+    for f in r.split('\t'):
+        if f.startswith('T='):
+            out = []
+            for m in f[2:].split('/'):
+                if m:
+                    t = vlib.uncps(m)
+                    out.append(int(t[1:]) if t[:1] == 'c' and t[1:].isdigit() else t)
+            return out
+    return None
+
+
+def model_calls(r):
+    for f in r.split('\t'):
+        if f.startswith('L='):
+            return [int(x, 16) for x in f[2:].split(',')] if f[2:] else []
+    return None
 
 
 def canon_model(case, r):
@@ -602,6 +625,18 @@ def exhaustive_small_sets():
     return out
 
 
+def exhaustive_small_arrays(maxlen):
+    """every array over three keys up to the given length, for the one-array functions"""
+    import itertools
+    out = []
+    for n in range(maxlen + 1):
+        for t in itertools.product(range(3), repeat=n):
+            a = [['n', v] for v in t]
+            for op in ('sort', 'set', 'uniq', 'min', 'max'):
+                out.append({'op': op, 'mode': 'proj', 'a': a})
+    return out
+
+
 def threshold_sweep(rng, lens):
     """std.sort on every listed length with few distinct keys (stability visible) and with distinct keys"""
     out = []
@@ -697,6 +732,15 @@ def run_cases(run, cases, impl_exe, model_exe, label):
             # the definitions are met (or say nothing) but the code no longer behaves as the model of it
             run.violation('c17-correspondence-' + op, 'correspondence %s (n=%d, mode=%s): implementation %s %s / model %s %s'
                           % (op, n, c['mode'], ir[0], json.dumps(ir[1])[:120], mr[0], json.dumps(mr[1])[:120]), R(), concrete=False)
+        elif c['mode'] != 'id' and impl_calls(ir_raw) != model_calls(mr_raw):
+            ic, mc = impl_calls(ir_raw), model_calls(mr_raw)
+            k = 0
+            while ic is not None and mc is not None and k < min(len(ic), len(mc)) and ic[k] == mc[k]:
+                k += 1
+            run.violation('c17-correspondence-keyF-calls-' + op,
+                          'correspondence %s (n=%d, mode=%s): keyF is applied to other elements / in another order than in the model '
+                          '(first difference at call #%d: implementation %s, model %s; %s vs %s calls)'
+                          % (op, n, c['mode'], k, (ic or [])[k:k + 3], (mc or [])[k:k + 3], len(ic or []), len(mc or [])), R(), concrete=False)
         if op in ('set', 'uniqsort') and 'twin' in c:
             twins.setdefault(c['twin'], {})[op] = (ir, replay)
         k = nontrivial_key(c)
@@ -713,14 +757,63 @@ def run_cases(run, cases, impl_exe, model_exe, label):
                               % (a[0], json.dumps(a[1])[:120], b[0], json.dumps(b[1])[:120]), d['set'][1])
 
 
+# argument errors that the key script cannot express: implementation alone.  (program, expected) with expected
+# 'ERR' or the JSON the call must produce
+RAW = [
+    ('std.sort(5)', 'ERR'), ('std.sort([2, 1], 3)', 'ERR'), ('std.sort([2, 1], function() 1)', 'ERR'),
+    ('std.sort([2, 1], function(a, b) a)', 'ERR'), ('std.sort("ba")', 'ERR'), ('std.sort({a: 1})', 'ERR'),
+    ('std.uniq(5)', 'ERR'), ('std.uniq([1, 1], 3)', 'ERR'), ('std.uniq([1, 1], function() 1)', 'ERR'),
+    ('std.set(5)', 'ERR'), ('std.set([2, 1], "x")', 'ERR'), ('std.set("abc")', 'ERR'),
+    ('std.setUnion(1, [1])', 'ERR'), ('std.setUnion([1], 1)', 'ERR'), ('std.setUnion([1], [1], 1)', 'ERR'),
+    ('std.setInter(1, [1])', 'ERR'), ('std.setInter([1], null)', 'ERR'), ('std.setInter([1], [1], 1)', 'ERR'),
+    ('std.setDiff("a", [1])', 'ERR'), ('std.setDiff([1], {})', 'ERR'), ('std.setDiff([1], [1], 1)', 'ERR'),
+    ('std.setMember(1, 5)', 'ERR'), ('std.setMember(1, [1], 5)', 'ERR'), ('std.setMember(1, "1")', 'ERR'),
+    ('std.minArray(7)', 'ERR'), ('std.maxArray("abc")', 'ERR'), ('std.minArray([2, 1], 5)', 'ERR'),
+    ('std.minArray([])', 'ERR'), ('std.maxArray([])', 'ERR'),
+    ('std.minArray([], onEmpty="e")', '"e"'), ('std.maxArray([], function(x) x, "e")', '"e"'),
+    ('std.sort([error "never"])', 'ERR'),     # manifesting the only element fails, sorting it does not
+    ('std.length(std.sort([error "never"]))', '1'), ('std.length(std.set([error "never"], function(x) error "k"))', '1'),
+    ('std.length(std.uniq([error "never"]))', '1'), ('std.setMember(error "x", [])', 'false'),
+    ('std.setInter([error "x"], [])', '[]'), ('std.length(std.setUnion([error "x"], []))', '1'),
+    ('std.length(std.setDiff([error "x", error "y"], []))', '2'),
+    ('std.sort([3, 1, 2], keyF=function(x) -x)', '[3, 2, 1]'), ('std.set(arr=[3, 1, 3])', '[1, 3]'),
+    ('std.setMember(2, [3, 2, 1], function(x) -x)', 'true'),
+    ('std.minArray([[2, "a"], [1, "b"], [1, "c"]], function(x) x[0])[1]', '"b"'),
+    ('std.maxArray([[2, "a"], [1, "b"], [2, "c"]], function(x) x[0])[1]', '"a"'),
+]
+
+
+def run_raw(run, impl_exe):
+    lines = ['w%d\teval\t\t%s' % (i, hxl(list(p.encode()))) for i, (p, _) in enumerate(RAW)]
+    res = vlib.run_sharded(impl_exe, lines, timeout=120)
+    for i, (p, want) in enumerate(RAW):
+        run.evaluations += 1
+        run.count('raw_programs')
+        r = res.get('w%d' % i, 'NOOUTPUT')
+        f = r.split('\t')
+        if f[0] not in ('OK', 'ERR'):
+            run.violation('c17-crash:raw:' + f[0], '%s: the evaluator answered %s' % (p, r[:100]), {'raw': p})
+        elif want == 'ERR':
+            if f[0] != 'ERR':
+                run.violation('c17-raw-error-not-raised', '%s returned %s instead of an error' % (p, vlib.uncps(f[1])[:80]), {'raw': p})
+        else:
+            got = vlib.uncps(f[1]) if f[0] == 'OK' else None
+            try:
+                ok = got is not None and same(json.loads(got), json.loads(want))
+            except Exception:
+                ok = False
+            if not ok:
+                run.violation('c17-raw-wrong-result', '%s: expected %s, implementation gives %s' % (p, want, (got or r)[:100]), {'raw': p})
+
+
 def check(run):
     rng = vlib.rng_for(run.seed, ID)
     run.rule = ('calls of std.sort/uniq/set/setInter/setUnion/setDiff/setMember/minArray/maxArray as program text through the real evaluator; '
                 'keys are numbers, strings, arrays of numbers or of strings (pools with 1..3n distinct values, so heavy duplicates), '
                 'lengths 0..200 biased to 29..33, 59..64, 119..126 (thorough: to 1000); key functions: default identity, projection x[0] of '
                 '[key, tag] elements (stability observable through the tags), trapped keys [k, error tag] (the first comparison of equal keys '
-                'names its left operand), failing keyF, mixed/incomparable types; set pairs: disjoint/interleaved/equal/subset/empty/one-shared/random '
-                'overlap plus every pair of subsets of a 4-element universe.  non-trivial = case with >= 2 elements answered OK or ERR, '
+                'names its left operand), failing keyF, mixed/incomparable types; with an explicit keyF every application is recorded (std.trace) and the call sequence compared; set pairs: disjoint/interleaved/equal/subset/empty/one-shared/random '
+                'overlap plus every pair of subsets of a 4-element universe; every array over three keys up to length 4 (thorough: 7).  non-trivial = case with >= 2 elements answered OK or ERR, '
                 'distinct by (function, key-function mode, length band, has-duplicates, input).')
     run.assume = ['the order of two keys (CompareValue on numbers/strings/arrays) and their equality (EqualsValue) are inputs of the model: '
                   'the generator ranks the keys of a case with Python comparison (code-point order for strings, lexicographic for arrays); '
@@ -735,9 +828,11 @@ def check(run):
                            rc == 0 and '* Axioms: <none>' in out, out[-300:])
     impl_exe = vlib.build_harness()
     model_exe = vlib.build_model('sort')
+    run_raw(run, impl_exe)
     cases = load_corpus()
     run.count('corpus_cases', len(cases))
     cases += exhaustive_small_sets()
+    cases += exhaustive_small_arrays(4 if quick else 7)
     cases += threshold_sweep(rng, [28, 29, 30, 31, 32, 33, 59, 60, 61, 62, 63, 64, 65] if quick else list(range(0, 135)) + [239, 240, 241, 242, 243, 247, 248, 249])
     n1, n2, n3 = (1000, 600, 300) if quick else (24000, 12000, 6000)
     for i in range(n1):
@@ -761,7 +856,11 @@ def check(run):
 def replay(run, path):
     j = json.load(open(path))
     r = j.get('replay', {})
-    if isinstance(r, dict) and 'case' in r:
+    if isinstance(r, dict) and 'raw' in r:
+        global RAW
+        RAW = [x for x in RAW if x[0] == r['raw']]
+        run_raw(run, vlib.build_harness())
+    elif isinstance(r, dict) and 'case' in r:
         c = r['case']
         cases = [c]
         if c.get('op') == 'set':
